@@ -58,6 +58,19 @@ func (c *Ctx) ifaceContract(cc *ssa.CallCommon) *Contract {
 	return nil
 }
 
+// funcTypeContract finds the contract of a dynamic call by the named function type of the called value (looking through
+// loads, parameters and phis is not needed: the static type of the value is what is named).
+func (c *Ctx) funcTypeContract(cc *ssa.CallCommon) *Contract {
+	n, ok := cc.Value.Type().(*types.Named)
+	if !ok || n.Obj().Pkg() == nil {
+		return nil
+	}
+	if _, isSig := n.Underlying().(*types.Signature); !isSig {
+		return nil
+	}
+	return c.S.Contracts[n.Obj().Pkg().Path()+"."+n.Obj().Name()]
+}
+
 func instrCount(fn *ssa.Function) int {
 	n := 0
 	for _, b := range fn.Blocks {
@@ -185,7 +198,9 @@ func (fr *Frame) call(st *State, cc *ssa.CallCommon, pos token.Pos) (*Val, *Stat
 		if noReturn(callee) {
 			return nil, nil
 		}
-		if con := c.contractFor(callee); con != nil && !con.Inline {
+		// a contract marked `inline` describes only the recursive calls: the outermost call is executed, a call to a function
+		// already on the inlining stack is replaced by the contract
+		if con := c.contractFor(callee); con != nil && (!con.Inline || fr.onStack(callee)) {
 			return fr.applyContractAt(st, con, callee.String(), callee, sig, args, pos, cc), st
 		}
 		if fr.Depth < maxInlineDepth && c.inlinable(callee) && !fr.onStack(callee) {
@@ -213,6 +228,11 @@ func (fr *Frame) call(st *State, cc *ssa.CallCommon, pos token.Pos) (*Val, *Stat
 	}
 	if cc.IsInvoke() {
 		if con := c.ifaceContract(cc); con != nil {
+			return fr.applyContractAt(st, con, name, nil, sig, args, pos, cc), st
+		}
+	} else if callee == nil {
+		// a call through a value of a named function type: contract keyed by the type (`func SignFunc(data)`), if any
+		if con := c.funcTypeContract(cc); con != nil {
 			return fr.applyContractAt(st, con, name, nil, sig, args, pos, cc), st
 		}
 	}
@@ -614,7 +634,25 @@ func (fr *Frame) builtin(st *State, b *ssa.Builtin, cc *ssa.CallCommon, pos toke
 	case "append":
 		return fr.appendOp(st, args[0], args[1], cc.Args[1].Type())
 	case "copy":
-		return fr.copyOp(st, args[0], args[1], cc.Args[1].Type())
+		res := fr.copyOp(st, args[0], args[1], cc.Args[1].Type())
+		// copy(a[:], src) where a is an array inside a struct or a local cell: the slice was modelled as a copy of the array
+		// (sliceOp); write the copied bytes back into the array itself
+		if sl, ok := cc.Args[0].(*ssa.Slice); ok {
+			if pt, ok := under(sl.X.Type()).(*types.Pointer); ok {
+				if at, ok := under(pt.Elem()).(*types.Array); ok {
+					base := fr.val(st, sl.X)
+					if !(base.Cell == nil && strings.HasPrefix(base.Root, "S:") && base.Idx == nil) {
+						if sl.Low != nil || sl.High != nil {
+							unsup("copy into a partial slice of an array that lives inside an object")
+						}
+						key := heapKey("S:"+tstr(at.Elem()), "")
+						content := Select(st.heapGet(key, SArr(SInt, SArr(SInt, sortOf(at.Elem())))), args[0].X)
+						fr.store(st, base, pt.Elem(), &Val{K: KArr, T: pt.Elem(), X: content})
+					}
+				}
+			}
+		}
+		return res
 	case "delete":
 		m, k := args[0], args[1]
 		t := m.T
@@ -754,6 +792,12 @@ func (fr *Frame) copyOp(st *State, d, s *Val, sT types.Type) *Val {
 		}
 	}
 	n := Ite(Le(d.Len, sl), d.Len, sl)
+	if !n.IsConst() && d.Len.IsConst() {
+		// the usual guard `if len(src) != N { panic }` puts len(src) == N on the path: the copy has a constant length
+		if k := knownConst(st.R, sl, 0); k != nil && k.Cmp(d.Len.Val) >= 0 {
+			n = d.Len
+		}
+	}
 	for _, l := range sliceLeaves(et) {
 		key := heapKey(root, l.path)
 		srt := SArr(SInt, SArr(SInt, sortOf(l.t)))
@@ -911,13 +955,55 @@ func (c *Ctx) scanWrites(blocks []*ssa.BasicBlock, w *writeSet, depth int, seen 
 				if kindOf(x.X.Type()) == KStr && kindOf(x.Type()) == KSlice {
 					w.add("S:"+tstr(under(x.Type()).(*types.Slice).Elem()), true)
 				}
-			case *ssa.Go, *ssa.Send, *ssa.Select, *ssa.Defer:
+			case *ssa.Go, *ssa.Send, *ssa.Select:
 				w.all = true
+				if w.why == "" {
+					w.why = "go/send/select"
+				}
+			case *ssa.Defer:
+				// the deferred call runs when the function returns: its writes are writes of the body
+				c.scanCallWrites(&x.Call, w, depth, seen)
 			case *ssa.UnOp:
 				if x.Op == token.ARROW {
 					w.all = true
 				}
 			case *ssa.Call:
+				// copy(a[:], src) into an array allocated inside the scanned body writes a fresh object only
+				if b, ok := x.Call.Value.(*ssa.Builtin); ok && b.Name() == "copy" {
+					if sl, ok := x.Call.Args[0].(*ssa.Slice); ok {
+						if pt, ok := under(sl.X.Type()).(*types.Pointer); ok {
+							if at, ok := under(pt.Elem()).(*types.Array); ok {
+								freshDst := false
+								switch a := sl.X.(type) {
+								case *ssa.Alloc:
+									// a local array (cell) is sliced into a fresh backing array (sliceOp); a heap array allocated
+									// in the body is a fresh object
+									freshDst = !a.Heap || inBody(a)
+									if !a.Heap {
+										w.cells[a] = true // the copy is written back into the cell
+									}
+								case *ssa.FieldAddr:
+									// array inside a struct: sliced into a fresh backing array, then written back through the
+									// field (that store is accounted for below)
+									freshDst = true
+									if p, fr2, cell, ok := addrPrefix(a, inBody); ok {
+										if cell != nil {
+											w.cells[cell] = true
+										} else {
+											w.add(p, fr2)
+										}
+									} else {
+										w.all = true
+									}
+								}
+								if freshDst {
+									w.add("S:"+tstr(at.Elem()), true)
+									continue
+								}
+							}
+						}
+					}
+				}
 				c.scanCallWrites(&x.Call, w, depth, seen)
 			}
 		}
@@ -936,6 +1022,9 @@ func (c *Ctx) scanCallWrites(cc *ssa.CallCommon, w *writeSet, depth int, seen ma
 		case "len", "cap", "min", "max", "ssa:deferstack", "ssa:wrapnilchk", "print", "println", "recover":
 		default:
 			w.all = true
+			if w.why == "" {
+				w.why = "builtin " + b.Name()
+			}
 		}
 		return
 	}
@@ -965,8 +1054,10 @@ func (c *Ctx) scanCallWrites(cc *ssa.CallCommon, w *writeSet, depth int, seen ma
 		con = c.contractFor(callee)
 	} else if cc.IsInvoke() {
 		con = c.ifaceContract(cc)
+	} else {
+		con = c.funcTypeContract(cc)
 	}
-	if con != nil && !con.Inline {
+	if con != nil && (!con.Inline || seen[callee]) {
 		if !con.ModSet {
 			w.all = true
 			return
@@ -996,7 +1087,8 @@ func (c *Ctx) scanCallWrites(cc *ssa.CallCommon, w *writeSet, depth int, seen ma
 			return
 		}
 		for p := range sub.prefixes {
-			w.add(p, false)
+			// an object allocated inside the callee is allocated inside whatever body the call sits in
+			w.add(p, sub.freshOnly[p])
 		}
 		return
 	}
@@ -1180,4 +1272,30 @@ func (c *Ctx) callIsPure(cc *ssa.CallCommon) bool {
 	w := newWriteSet()
 	c.scanCallWrites(cc, w, 0, map[*ssa.Function]bool{})
 	return !w.all && len(w.prefixes) == 0
+}
+
+
+// knownConst looks for a top-level conjunct `t == const` in a path condition.
+func knownConst(r, t *Term, depth int) *big.Int {
+	if r == nil || depth > 40 {
+		return nil
+	}
+	switch r.Op {
+	case "and":
+		for _, a := range r.Args {
+			if k := knownConst(a, t, depth+1); k != nil {
+				return k
+			}
+		}
+	case "=":
+		if len(r.Args) == 2 {
+			if r.Args[0] == t && r.Args[1].IsConst() {
+				return r.Args[1].Val
+			}
+			if r.Args[1] == t && r.Args[0].IsConst() {
+				return r.Args[0].Val
+			}
+		}
+	}
+	return nil
 }
